@@ -625,6 +625,117 @@ Definition lvn (f : func) : func :=
   let '(body, vc, _) := lvn_stmts (f_body f) [] [] in
   mkfunc (f_params f) body (lvn_expr vc (f_ret f)).
 
+(* ======================================================================== common subexpression elimination *)
+(* common_subexpression_elimination.rs: a value computed at the top level of BOTH branches of an if-else is
+   also computed, into a fresh temporary, just before the if-else (local value numbering then removes the
+   two copies).  Statements are walked in reverse; `set` is the BTreeSet<BindedValue> of the block, kept as a
+   sorted list; SingleIf and While bodies are not looked into.  The fresh names come from a supply (the real
+   pass takes them from a counter; the tie passes the names the real pass made, in allocation order). *)
+Definition lexc (a b : comparison) : comparison := match a with Eq => b | o => o end.
+Definition binop_rank (op : binop) : N :=
+  match op with
+  | MUL => 0 | DIV => 1 | MOD => 2 | PLUS => 3 | MINUS => 4 | LAND => 5 | LOR => 6 | SHL => 7 | SHR => 8 | XOR => 9
+  | LT => 10 | LE => 11 | GT => 12 | GE => 13 | EQ => 14 | NE => 15
+  end%N.
+(* derived Ord of BindedValue: IndexedAccess < Binary < IsPointer < Not, then the fields in declaration order *)
+Definition bval_rank (v : bval) : N :=
+  match v with
+  | BVPrim (PIdx _ _) _ => 0 | BVBin _ _ _ => 1 | BVPrim (PIsPtr _) _ => 2 | BVNot _ => 3 | BVPrim (PCast _) _ => 4
+  end%N.
+Definition bval_cmp (a b : bval) : comparison :=
+  match a, b with
+  | BVPrim (PIdx t i) e, BVPrim (PIdx t' i') e' => lexc (N.compare t t') (lexc (expr_cmp e e') (N.compare i i'))
+  | BVBin op e1 e2, BVBin op' e1' e2' =>
+      lexc (N.compare (binop_rank op) (binop_rank op')) (lexc (expr_cmp e1 e1') (expr_cmp e2 e2'))
+  | BVPrim (PIsPtr t) e, BVPrim (PIsPtr t') e' => lexc (N.compare t t') (expr_cmp e e')
+  | BVNot e, BVNot e' => expr_cmp e e'
+  | BVPrim (PCast t) e, BVPrim (PCast t') e' => lexc (N.compare t t') (expr_cmp e e')
+  | _, _ => N.compare (bval_rank a) (bval_rank b)
+  end.
+Definition bset := list bval.
+Fixpoint bset_insert (v : bval) (s : bset) : bset :=
+  match s with
+  | [] => [v]
+  | u :: r => match bval_cmp v u with Lt => v :: s | Eq => s | Gt => u :: bset_insert v r end
+  end.
+Definition bset_mem (v : bval) (s : bset) : bool :=
+  existsb (fun u => match bval_cmp v u with Eq => true | _ => false end) s.
+Definition stmt_of_bval (x : name) (v : bval) : stmt :=
+  match v with
+  | BVBin op e1 e2 => let '(op', a, b) := unwrapped op e1 e2 in SBin x op' a b
+  | BVNot e => SNot x e
+  | BVPrim p e => SPrim x p e
+  end.
+(* one fresh name per value, in this order *)
+Fixpoint take_names (vs : list bval) (sup : list name) : option (list (name * bval) * list name) :=
+  match vs with
+  | [] => Some ([], sup)
+  | v :: r => match sup with
+              | [] => None
+              | x :: sup' => match take_names r sup' with Some (l, s) => Some ((x, v) :: l, s) | None => None end
+              end
+  end.
+
+Fixpoint cse_stmt (st : stmt) (set : bset) (sup : list name) {struct st} : option (list stmt * bset * list name) :=
+  let fix go (ss : list stmt) (sup : list name) : option (list stmt * bset * list name) :=
+    match ss with
+    | [] => Some ([], [], sup)
+    | st :: r =>
+        match go r sup with
+        | None => None
+        | Some (r', set, sup1) =>
+            match cse_stmt st set sup1 with
+            | None => None
+            | Some (o, set', sup2) => Some (o ++ r', set', sup2)
+            end
+        end
+    end in
+  match st with
+  | SBin x op e1 e2 => Some ([st], bset_insert (BVBin op e1 e2) set, sup)
+  | SNot x e => Some ([st], bset_insert (BVNot e) set, sup)
+  | SPrim x p e => match p with
+                   | PCast _ => Some ([st], set, sup)
+                   | _ => Some ([st], bset_insert (BVPrim p e) set, sup)
+                   end
+  | SIf c s1 s2 fas =>
+      match go s1 sup with
+      | None => None
+      | Some (s1', set1, sup1) =>
+          match go s2 sup1 with
+          | None => None
+          | Some (s2', set2, sup2) =>
+              let common := filter (fun e => bset_mem e set2) set1 in
+              (* pushed after the if-else in decreasing order while walking in reverse *)
+              match take_names (rev common) sup2 with
+              | None => None
+              | Some (named, sup3) =>
+                  Some (map (fun p => stmt_of_bval (fst p) (snd p)) (rev named) ++ [SIf c s1' s2' fas],
+                        fold_left (fun s v => bset_insert v s) (rev common) set, sup3)
+              end
+          end
+      end
+  | _ => Some ([st], set, sup)
+  end.
+Fixpoint cse_stmts (ss : list stmt) (sup : list name) : option (list stmt * bset * list name) :=
+  match ss with
+  | [] => Some ([], [], sup)
+  | st :: r =>
+      match cse_stmts r sup with
+      | None => None
+      | Some (r', set, sup1) =>
+          match cse_stmt st set sup1 with
+          | None => None
+          | Some (o, set', sup2) => Some (o ++ r', set', sup2)
+          end
+      end
+  end.
+(* optimize_function; None = the supply of fresh names is too short *)
+Definition cse (sup : list name) (f : func) : option func :=
+  match cse_stmts (f_body f) sup with
+  | Some (body, _, _) => Some (mkfunc (f_params f) body (f_ret f))
+  | None => None
+  end.
+
 (* ======================================================================== the per-function pipeline *)
 (* lib.rs optimize_function_for_one_round / optimize_function_for_rounds, restricted to the modelled passes
    (scalar replacement, the loop optimisations and common subexpression elimination are switched off by the
